@@ -1,4 +1,5 @@
 import HeraProofs.Props.C03
+import HeraProofs.Props.C03b
 open Hera
 #print axioms C03_SET
 #print axioms C03_MOVE
@@ -18,3 +19,6 @@ open Hera
 #print axioms C03_convert_SETRF
 #print axioms C03_convert_BRlabel
 #print axioms C03_convert_CALLlabel
+#print axioms C03_NOT
+#print axioms C03_SETRF
+#print axioms C03_CALLlabel
